@@ -19,7 +19,7 @@ import (
 
 // C13 — buffered downlink packets are released in order, once, to the right tunnel.
 //
-// Start: peers A and B associated, one session each (s1 on A: PDR 1,2 -> FAR 1, QER 1 with QFI 37; s2 on B:
+// Start: peers A and B associated, one session each (s1 on A: PDR 1,2 -> FAR 1, PDR 1 with QER 1 = QFI 37, PDR 2 without QER; s2 on B:
 // PDR 1,2 -> FAR 1, no QER); FAR 1 buffers and has an outer header creation towards the simulated gNB with a
 // TEID of its own. Alphabet: Buf(session, pdr, nocp) one BUFFER notification with a unique payload;
 // BufGone (never-existing SEID / ended session); Burst(session, pdr) 513 (thorough also 600) notifications;
@@ -97,8 +97,8 @@ func (c *c13) est(p int) []seqx.Viol {
 	}
 	for _, id := range []uint32{1, 2} {
 		o := smf.RuleOp{Verb: 'C', Kind: 'P', ID: id, FAR: 1, SrcIf: 1, UEIP: "10.60.0.1", MInfo: -1}
-		if p == 0 {
-			o.QERs = []uint32{1}
+		if p == 0 && id == 1 {
+			o.QERs = []uint32{1} // PDR 1 carries the QoS flow; PDR 2 of the same FAR has no QER
 		}
 		ops = append(ops, o)
 	}
@@ -377,8 +377,14 @@ func (c *c13) judgeEmission(j *sworld.Judge, s *bsess, exp []string, got [][]byt
 		if g.TEID != s.teid {
 			j.Fail("wrong-teid", "packet %q re-injected with TEID %#x, the FAR of %s has %#x", pl, g.TEID, c.label(s.up), s.teid)
 		}
-		if (s.qfi != 0) != g.HasExt || (g.HasExt && g.QFI != s.qfi) {
-			j.Fail("wrong-qfi", "packet %q re-injected with QFI present=%v value=%d, session %s has QFI %d", pl, g.HasExt, g.QFI, c.label(s.up), s.qfi)
+		// the QFI is that of the first QER of the packet's OWN PDR that carries one (s1: PDR 1 -> QER 1 QFI 37, PDR 2
+		// no QER; s2: none): a packet is never marked with another PDR's flow
+		want := uint8(0)
+		if strings.Contains(pl, ":pdr1:") {
+			want = s.qfi
+		}
+		if (want != 0) != g.HasExt || (g.HasExt && g.QFI != want) {
+			j.Fail("wrong-qfi", "packet %q re-injected with QFI present=%v value=%d; its PDR in session %s has QFI %d (0 = no QER)", pl, g.HasExt, g.QFI, c.label(s.up), want)
 		}
 		_ = from[i]
 	}
@@ -429,7 +435,7 @@ func RunC13(tier string) {
 	spec := c13Spec(tier, "buffering")
 	st := seqx.Explore(run, spec, tier, smp)
 	seqx.Merge(run, "buffering", st, &total)
-	seqx.Finish(run, total, smp, fmt.Sprintf("two sessions on two peers (PDR 1,2 -> FAR 1, one with QER QFI 37, one without), BUFFER notifications for live / never-existing / ended sessions with and without NOCP, bursts of 513 (thorough 600) packets across the 512 capacity, FAR apply-action transitions among BUFF, BUFF|NOCP, FORW, DROP, FORW|NOCP, PDR removal, deletion and SEID re-use; all histories to depth %d (completed %d) over the full stack", spec.MaxDepth, st.DepthDone))
+	seqx.Finish(run, total, smp, fmt.Sprintf("two sessions on two peers (PDR 1,2 -> FAR 1; in one session PDR 1 has a QER with QFI 37 and PDR 2 none, the other has no QER), BUFFER notifications for live / never-existing / ended sessions with and without NOCP, bursts of 513 (thorough 600) packets across the 512 capacity, FAR apply-action transitions among BUFF, BUFF|NOCP, FORW, DROP, FORW|NOCP, PDR removal, deletion and SEID re-use; all histories to depth %d (completed %d) over the full stack", spec.MaxDepth, st.DepthDone))
 	run.Assumption("the simulated kernel stands for gtp5g: it answers GET_FAR with the FAR's current action and related PDRs, GET_PDR with the QER ids, GET_QER with the QFI")
 	run.Assumption("inside Update FAR the FAR ID precedes Apply Action (the order every go-pfcp based SMF emits)")
 	run.Finish()
